@@ -6,7 +6,7 @@ EXPLANATION = ('The real driver (format_writer ctor, next_format, fetch_prefix, 
                'all loops terminate within the unwinding bound; every literal handed to the sink lies inside the format string; literal output equals the reference scanner.')
 BOUNDS = {'quick': 'format strings of every length 0..3 (parser alone), 0..2 (apply_format with 0, 1, 2 const char* arguments and 1 char argument); all byte values',
           'thorough': 'lengths 4..5 (parser), 3..4 (apply_format); measured: parser 82 s at length 3, 309 s at length 4'}
-OUTSIDE = 'format strings longer than the bound; argument types other than const char* and char (rendering is C11/C12/C13); ST::unicode_error from the final to_string (C02/C16); std::function dispatch for more than two arguments'
+OUTSIDE = 'format strings longer than the bound (the renderers are additionally run under a fully symbolic format_spec, so widths/precisions that need longer format strings are covered at the rendering stage); numeric argument types (rendering is C11/C12/C13); ST::unicode_error from the final to_string (C02/C16); std::function dispatch for more than two arguments'
 ALLOW = ('Char formatting does not currently support padding',)
 def L(n):
     # per-loop bounds derived from the format length n: a field needs >= 2 bytes, every scanning loop advances by >= 1 byte per iteration;
@@ -22,4 +22,15 @@ def queries():
             for op, nm in ((2, 'apply0'), (3, 'apply1_cstr'), (4, 'apply2_cstr'), (5, 'apply1_char')):
                 qs.append(Q('%s_len%d_%s' % (nm, n, tier), 'C10_format.c', 'format.cpp', defs={'OP': op, 'NFIX': n}, models=('core', 'libc', 'strtol'), unwind=n + 3, hunwind=10, object_bits=10, loops=L(n), tiers=(tier,),
                             allow_aborts=ALLOW if op == 5 else (), bound={'format length': n, 'arguments': nm}, timeout=900 if tier == 'quick' else 3000))
+    # the rendering stage under EVERY spec the parser can hand over (format_spec fields symbolic: width incl. negatives -- a parsed width >= 2^31 narrows to a
+    # negative int --, precision any int, every flag combination): the text / bool / ST::string / character renderers on arbitrary text.  These are the C11
+    # harnesses; what C10 takes from them is the absence of out-of-bounds accesses, oversized requests, aborts and non-termination.
+    M = ('core', 'libc', 'strtol')
+    for tier, w, t in (('quick', 8, 4), ('thorough', 16, 6)):
+        u = w + t + 12
+        qs.append(Q('render_safety_format_string_%s' % tier, 'C11_render.c', 'format.cpp', defs={'OP': 1, 'W': w, 'T': t}, models=M, unwind=u, tiers=(tier,), bound={'spec': 'symbolic', 'width<=': w, 'text<=': t}))
+        for form, nm in ((1, 'bool'), (2, 'cstr'), (3, 'string')):
+            qs.append(Q('render_safety_%s_%s' % (nm, tier), 'C11_render.c', 'format.cpp', defs={'OP': 3, 'FORM': form, 'W': w, 'T': max(t, 5)}, models=M, unwind=u + 8, tiers=(tier,), bound={'spec': 'symbolic', 'width<=': w, 'text<=': t}))
+    for form, nm in ((2, 'char'), (5, 'int')):
+        qs.append(Q('render_safety_char_class_%s' % nm, 'C11_render.c', 'format.cpp', defs={'OP': 4, 'FORM': form, 'W': 2, 'T': 4}, models=M, unwind=22, bound={'value': 'all values of the type'}))
     return qs
